@@ -9,6 +9,8 @@ from __future__ import annotations
 import base64 as _base64
 import binascii as _binascii
 import builtins
+
+from . import hunt
 import enum as _enum
 import struct as _struct
 import types
@@ -664,7 +666,11 @@ SHIM_MODULES = {
 def sx_import(name, globals=None, locals=None, fromlist=(), level=0):
     if level == 0 and name in SHIM_MODULES:
         return SHIM_MODULES[name]
-    return builtins.__import__(name, globals, locals, fromlist, level)
+    mod = builtins.__import__(name, globals, locals, fromlist, level)
+    if level == 0 and name in hunt.HUNT_MODULES:
+        # no model for these: symbolic arguments are pinned to palette values (see sx/hunt.py)
+        return hunt.HuntModule(mod)
+    return mod
 
 
 def make_builtins():
